@@ -80,7 +80,9 @@ FORMS = {"free1": ("{}", 1), "free2": ("{}", 2), "escape": ("%{}", 2), "escape-t
          "hi-valid": ("%C3%A9{}", 1), "hi-truncated": ("%E2%98{}", 1), "hi-truncated4": ("%F0%9F%98{}", 1), "hi-invalid": ("{}%FF", 1)}
 
 
-HOSTS = {"h": "h", "idn": "www.\u2603.net", "idn-first": "b\u00fccher.example", "idn-port": "a.b.\u00e9x.fr:8080", "ipv6": "[::1]:8080", "user": "u@h", "user-ipv6": "u:p@[::1]:8080", "user-idn": "u@b\u00fccher.example:81"}
+HOSTS = {"h": "h", "idn": "www.\u2603.net", "idn-first": "b\u00fccher.example", "idn-port": "a.b.\u00e9x.fr:8080", "ipv6": "[::1]:8080", "user": "u@h", "user-ipv6": "u:p@[::1]:8080", "user-idn": "u@b\u00fccher.example:81",
+         # labels the idna codec must refuse: converting may fail, it may not yield non-ASCII
+         "idn-too-long": "\u2603" * 58 + ".net", "idn-empty-label": "\u2603..net"}
 
 
 def body_iri_uri(I, X, comp="path", form="free1", host="h"):
@@ -97,7 +99,13 @@ def body_iri_uri(I, X, comp="path", form="free1", host="h"):
     base = {"path": "http://h/a", "query": "http://h/p?q=", "fragment": "http://h/p#"}[comp]
     base = base.replace("//h/", "//" + HOSTS[host] + "/")
     x = pconcat(base, text)
-    u1 = I.call(urls.iri_to_uri, (x,))
+    try:
+        u1 = I.call(urls.iri_to_uri, (x,))
+    except UnicodeError:
+        # a host the IDNA codec rejects: refusing is fine (no URI was yielded)
+        return host in ("idn-too-long", "idn-empty-label"), {"raised": "UnicodeError"}
+    if host in ("idn-too-long", "idn-empty-label"):
+        return pall_in(u1, [(0x21, 0x7E)]), {"u1": u1}
     i1 = I.call(urls.uri_to_iri, (u1,))
     u2 = I.call(urls.iri_to_uri, (i1,))
     i2 = I.call(urls.uri_to_iri, (u2,))
@@ -168,6 +176,26 @@ def body_host_port(I, X, scheme="http", n=2, skel="{}"):
     return ok, {"url": url}
 
 
+def body_environ_path(I, X, n=2, which="PATH_INFO"):
+    """the path (script root) a WSGI server hands over -- UTF-8 bytes tunnelled through latin-1,
+    here n solver bytes after a fixed prefix -- is what request.path (root_path) reports:
+    exactly those bytes decoded, nothing trimmed"""
+    from werkzeug.wrappers import Request
+
+    t = X.str("tail", n, minlen=n, maxcp=0xFF)
+    X.assume(pall_in(t, [(0x01, 0xFF)]))
+    raw = pconcat("/p", t)
+    environ = {"REQUEST_METHOD": "GET", "wsgi.url_scheme": "http", "SERVER_NAME": "s", "SERVER_PORT": "80", "SCRIPT_NAME": "", "PATH_INFO": "/x",
+               "QUERY_STRING": ""}
+    environ[which] = raw
+    req = I.call(Request, (environ,))
+    got = I.getattr(req, "path" if which == "PATH_INFO" else "root_path")
+    want = raw.encode("latin-1").decode("utf-8", "replace")
+    if which == "SCRIPT_NAME":
+        want = want.rstrip("/")
+    return peq(got, want), {"got": got}
+
+
 def body_query_mapping(I, X, nk=1, nv=1):
     """a query mapping given to the environ builder is recovered exactly: urls._urlencode (what
     EnvironBuilder uses for a query mapping) followed by Request.args"""
@@ -203,6 +231,10 @@ def obligations(tier, seed):
                 continue
             out.append({"name": f"current_url[n={n},query={wq}]", "body": "body_current_url", "params": {"n": n, "with_query": wq},
                         "opts": {"budget_s": 900, "ctx": {"max_cp": 0x7E}}, "witness": n == 1 and wq})
+    for which in ("PATH_INFO", "SCRIPT_NAME"):
+        for n in ((1, 2) if quick else (1, 2, 3)):
+            out.append({"name": f"environ_path[{which},n={n}]", "body": "body_environ_path", "params": {"n": n, "which": which},
+                        "opts": {"budget_s": 900, "ctx": {"max_cp": 0xFFFF}}})
     for nk, nv in ([(1, 1), (2, 0)] if quick else [(1, 1), (2, 0), (2, 1), (1, 2)]):
         out.append({"name": f"query_mapping[k={nk},v={nv}]", "body": "body_query_mapping", "params": {"nk": nk, "nv": nv},
                     "opts": {"budget_s": 900, "ctx": {"max_cp": 0x7FF}, "stubs_from": "harness.c02"}})
